@@ -10,6 +10,8 @@ reference model (the arrays the file was written from) stays valid:
   trr_rewrite           GROMACS double- (or single-) precision TRR whose frames also carry velocities and / or forces
   xyz_blank_comments    XYZ whose per-frame comment line is empty / blank (what most non-mdtraj writers emit)
   gro_add_velocities    GRO with the optional three velocity columns
+  nc_as_amber_writes    AMBER NetCDF as sander/pmemd/cpptraj lay it out (variable order, velocities with scale_factor, temp0),
+                        in the 64-bit-offset, classic or HDF5-based container
 
 They are pure byte/line transformations (no mdtraj code involved) and deterministic.
 """
@@ -225,3 +227,78 @@ def gro_add_velocities(path, seed=0):
         out.append(lines[k + 2 + n])
         k += n + 3
     _write_text(path, out)
+
+
+# ------------------------------------------------------------------ NetCDF (AMBER convention)
+
+def nc_as_amber_writes(path, data_model='NETCDF3_64BIT_OFFSET', with_velocities=True, with_remd=False, seed=0):
+    """the same AMBER-convention trajectory as sander/pmemd/cpptraj would lay it out: variables created in AMBER's order
+    (spatial, time, coordinates, cell_*, then velocities with their scale_factor and, for replica exchange, temp0), program
+    attributes of another writer, optionally the classic or the HDF5-based (NETCDF4) container"""
+    import sys
+    hidden = 'netCDF4' in sys.modules and sys.modules['netCDF4'] is None      # the engine hides the library to select scipy's reader
+    if hidden:
+        del sys.modules['netCDF4']
+    try:
+        import netCDF4
+    finally:
+        if hidden:
+            sys.modules['netCDF4'] = None
+    src = netCDF4.Dataset(path)
+    n_frames = len(src.dimensions['frame'])
+    n_atoms = len(src.dimensions['atom'])
+    data = {k: np.array(v[:]) for k, v in src.variables.items()}
+    has_cell = 'cell_lengths' in data
+    has_time = 'time' in data
+    src.close()
+    r = np.random.RandomState(seed & 0x7FFFFFFF)
+    out = netCDF4.Dataset(path, 'w', format=data_model)
+    out.Conventions = 'AMBER'
+    out.ConventionVersion = '1.0'
+    out.application = 'AMBER'
+    out.program = 'pmemd'
+    out.programVersion = '20.0'
+    out.title = 'default_name'
+    out.createDimension('frame', None)
+    out.createDimension('spatial', 3)
+    out.createDimension('atom', n_atoms)
+    if has_cell:
+        out.createDimension('cell_spatial', 3)
+        out.createDimension('label', 5)
+        out.createDimension('cell_angular', 3)
+    v = out.createVariable('spatial', 'S1', ('spatial',))
+    v[:] = np.array(list('xyz'), dtype='S1')
+    if has_time:
+        v = out.createVariable('time', 'f4', ('frame',))
+        v.units = 'picosecond'
+    c = out.createVariable('coordinates', 'f4', ('frame', 'atom', 'spatial'))
+    c.units = 'angstrom'
+    if has_cell:
+        v = out.createVariable('cell_spatial', 'S1', ('cell_spatial',))
+        v[:] = np.array(list('abc'), dtype='S1')
+        v = out.createVariable('cell_angular', 'S1', ('cell_angular', 'label'))
+        v[:] = np.array([list('alpha'), list('beta '), list('gamma')], dtype='S1')
+        cl = out.createVariable('cell_lengths', 'f8', ('frame', 'cell_spatial'))
+        cl.units = 'angstrom'
+        ca = out.createVariable('cell_angles', 'f8', ('frame', 'cell_angular'))
+        ca.units = 'degree'
+    if with_velocities:
+        vel = out.createVariable('velocities', 'f4', ('frame', 'atom', 'spatial'))
+        vel.units = 'angstrom/picosecond'
+        vel.scale_factor = 20.455
+    if with_remd:
+        t0 = out.createVariable('temp0', 'f8', ('frame',))
+        t0.units = 'kelvin'
+    out.set_auto_maskandscale(False)
+    for k in range(n_frames):
+        if has_time:
+            out.variables['time'][k] = data['time'][k]
+        c[k] = data['coordinates'][k]
+        if has_cell:
+            cl[k] = data['cell_lengths'][k]
+            ca[k] = data['cell_angles'][k]
+        if with_velocities:
+            vel[k] = r.uniform(-1, 1, size=(n_atoms, 3)).astype(np.float32)
+        if with_remd:
+            t0[k] = 300.0 + k
+    out.close()
